@@ -1,8 +1,12 @@
 #!/bin/bash
 # seeded_eval.sh <ID> [check ids...] : confirm a sub-agent's seeded change in its scratch worktree /tmp/wt_<ID>, archive it under
 # /verif/seeded/<ID>/, and run the given checks (default: the property's own) against the changed tree via VERIF_REPO.
-id=$1; shift; checks=${@:-$id}
-wt=/tmp/wt_$id; out=/verif/seeded/$id; mkdir -p $out
+id=$1; shift
+# archive id may carry a round suffix (C01_r2): the worktree is then /tmp/w2_C01 and the default check is C01
+pidonly=${id%%_*}
+if [[ "$id" == *_r2 ]]; then wt=/tmp/w2_$pidonly; else wt=/tmp/wt_$id; fi
+checks=${@:-$pidonly}
+out=/verif/seeded/$id; mkdir -p $out
 cd $wt || exit 2
 [ -f seeded/patch.diff ] || git diff -- sqllineage > seeded/patch.diff
 # normalise: patch.diff must be exactly the current source change
